@@ -61,13 +61,36 @@ enum Action {
     Version,
 }
 
+/// The size of the stack for the thread that does the work.
+///
+/// Expressions, statement lists and declarations become trees that are as deep as
+/// the source is long (`1 + 1 + ... + 1`) and the compiler walks them recursively.
+/// The stack of the main thread is enough for a few hundred terms only.
+const STACK_SIZE: usize = 1024 * 1024 * 1024;
+
 pub fn main() -> Result<(), String> {
     // The Err variant is a String so that the command line shows a nice message.
     let args = Args::parse();
 
     logger::configure(args.verbose)?;
 
-    match args.action {
+    let action = args.action;
+    let worker = std::thread::Builder::new()
+        .name("main".to_owned())
+        .stack_size(STACK_SIZE)
+        .spawn(move || run(action));
+    match worker {
+        Ok(handle) => match handle.join() {
+            Ok(result) => result,
+            // The panic message has been printed by the thread
+            Err(_) => std::process::exit(101),
+        },
+        Err(err) => Err(format!("Unable to start: {}", err)),
+    }
+}
+
+fn run(action: Action) -> Result<(), String> {
+    match action {
         Action::Lsp { stdio: _ } => {
             let proj = LspProject::new(Box::<FileBackedProject>::default());
             lsp::start(proj)
